@@ -102,7 +102,7 @@ class World:
                       {"h": datetime.datetime.utcnow() - datetime.timedelta(seconds=secs), "t": trial_id})
 
     def make_trial(self, rng, kind: str, owner: int = 0, stale_cache_for: list | None = None):
-        """kind: dead | alive | nobeat | finished.  Returns the trial number."""
+        """kind: dead | alive | nobeat | finished | revived.  Returns the trial number."""
         study = self.studies[owner]
         t = study.ask()
         for s in (stale_cache_for or []):
@@ -115,7 +115,12 @@ class World:
             t.report(0.25 + t.number, 0)
             t.report(0.5 + t.number, 3)
         raw = self.raws[owner]
-        if kind in ("dead", "alive", "finished"):
+        if kind in ("dead", "alive", "finished", "revived"):
+            raw.record_heartbeat(t._trial_id)
+        if kind == "revived":
+            # the owner was silent for longer than the grace period (suspended process, long GC pause) and beat again just
+            # before the sweep: its heartbeat is fresh, the trial is alive
+            self.backdate(t._trial_id, self.dead_age(rng))
             raw.record_heartbeat(t._trial_id)
         if kind == "alive":
             raw.record_heartbeat(t._trial_id)      # the refresh path (second beat)
@@ -228,7 +233,7 @@ def sequential_round(ctx: Ctx, rng, idx: int) -> None:
         nW = len(w.studies)
         dead, prot = [], {}
         for _ in range(rng.randint(2, 6)):
-            kind = rng.choice(["dead", "dead", "alive", "nobeat", "finished"])
+            kind = rng.choice(["dead", "dead", "alive", "nobeat", "finished", "revived"])
             stale = [s for s in range(nW) if rng.random() < 0.6]
             num, tid = w.make_trial(rng, kind, owner=rng.randrange(nW), stale_cache_for=stale)
             if kind == "dead":
@@ -341,7 +346,7 @@ def soak_round(ctx: Ctx, s: sched.Sched, rng, idx: int) -> None:
         nW = len(w.studies)
         dead, prot = [], {}
         for _ in range(rng.randint(3, 7)):
-            kind = rng.choice(["dead", "dead", "alive", "nobeat", "finished"])
+            kind = rng.choice(["dead", "dead", "alive", "nobeat", "finished", "revived"])
             num, _ = w.make_trial(rng, kind, owner=rng.randrange(nW))
             (dead.append(num) if kind == "dead" else prot.__setitem__(num, kind))
         snap = snapshot_protected(w, prot)
